@@ -299,3 +299,39 @@ Definition c08_walk_violations (cases : list wcase) : list nat :=
 Definition c08_nontrivial (cases : list wcase) : nat :=
   count_true (fun c => match List.concat (map sd_emitted (w_strides (fst (model_walk c)))) with
                        | [] => false | _ => true end) cases.
+
+(** C18 on walks: every stride keeps the permanent bindings of the state it
+    started from (the same action and guard objects run several times within
+    one walk, with different bindings each time) - unless the action
+    returned no bindings at all *)
+Definition stride_action_returns_null (sp : aspec) (sd : stride) : bool :=
+  match find_node (st_node (sd_from sd)) (sp_nodes sp) with
+  | Some n =>
+      match nd_action n with
+      | Some a =>
+          let r := run_act a (st_bs (sd_from sd)) in
+          match xr_exe r, xr_err r with
+          | Some (None, _), false => true
+          | _, _ => false
+          end
+      | None => false
+      end
+  | None => false
+  end.
+Definition c18_walk_violations (cases : list wcase) : list nat :=
+  bad_indexes (fun c => match wc_go c with
+                        | GWalk gw _ =>
+                            existsb (fun sd => negb (stride_action_returns_null (wc_spec c) sd)
+                                               && negb (permanent_kept (st_bs (sd_from sd)) (sd_to sd)))
+                                    (w_strides gw)
+                        | _ => false
+                        end) 0 cases.
+Definition c18_walk_nontrivial (cases : list wcase) : nat :=
+  count_true (fun c => match wc_go c with
+                       | GWalk gw _ =>
+                           existsb (fun sd => existsb (fun kv : string * json => is_permanent (fst kv))
+                                                      (copy_bs (st_bs (sd_from sd)))
+                                              && match sd_to sd with Some _ => true | None => false end)
+                                   (w_strides gw)
+                       | _ => false
+                       end) cases.
